@@ -237,6 +237,11 @@ F("CHAIN-numpydoc-untyped-return", ALLP,
   "chain: numpydoc hop with an untyped return entry (see NUMPYDOC-return-without-type)",
   ["Chain.NoExtraNames", "Chain.Summary", "Chain.Ret"], when={"k": "numpydoc"}, ret=[True, "none", ANY, ANY, ANY, ANY])
 
+F("CHAIN-class-negative-int-from-prose-as-float", ALLP,
+  "chain: a `Defaults to -1` sentence left in the prose by an earlier hop is re-read by the class emitter without the declared "
+  "type, so an int default is written as `-1.0` (see DOC-negative-int-as-float)",
+  ["Chain.Def"], obs=["other"], when={"k": "class"}, slot=[["int", "OptInt", "none"], "own", ANY, ANY, "intNeg"])
+
 # ------------------------------------------------------------------------------------------------ wrapping (C18)
 NARROW = [str(x) for x in range(40, 100, 8)] + ["72"]
 F("NUMPYDOC-wrapped-continuation-not-indented", ALLP,
